@@ -270,4 +270,47 @@ theorem nf_fixed (r : SConn) (h : NF r) : ∃ f, resolveSliceable f r = .ok r :=
     rw [nfLeaf_fixed_parts 0 ps hps]
     rfl
 
+/-! ### the executable form -/
+
+theorem nfLeafB_iff : ∀ (r : SConn), r.nfLeafB = true ↔ NFLeaf r
+  | .sig _ _ => by simp [SConn.nfLeafB, NFLeaf]
+  | .slice (.sig n w) idx => by
+    simp only [SConn.nfLeafB, NFLeaf]
+    cases hi : sliceInner w idx with
+    | error e => simp
+    | ok inner =>
+      simp only [Except.ok.injEq, exists_eq_left', Bool.not_eq_true', Bool.and_eq_false_imp, decide_eq_true_eq, beq_eq_false_iff_ne, ne_eq]
+      constructor
+      · intro h ⟨h1, h2⟩; exact h h1 h2
+      · intro h h1 h2; exact h ⟨h1, h2⟩
+  | .slice (.slice _ _) _ => by simp [SConn.nfLeafB, NFLeaf]
+  | .slice (.concat _) _ => by simp [SConn.nfLeafB, NFLeaf]
+  | .concat _ => by simp [SConn.nfLeafB, NFLeaf]
+
+/-- the Boolean the driver evaluates on what the real elaborator leaves is the `NF` of the theorems -/
+theorem nfB_iff (r : SConn) : r.nfB = true ↔ NF r := by
+  cases r with
+  | sig n w => simp [SConn.nfB, SConn.nfLeafB, NF, NFLeaf]
+  | slice p idx =>
+    have : (SConn.slice p idx).nfB = (SConn.slice p idx).nfLeafB := by simp [SConn.nfB]
+    rw [this, nfLeafB_iff]
+    constructor
+    · intro h; exact Or.inl h
+    · rintro (h | ⟨ps, he, _⟩)
+      · exact h
+      · cases he
+  | concat ps =>
+    simp only [SConn.nfB, Bool.and_eq_true, Bool.not_eq_true', List.all_eq_true]
+    constructor
+    · rintro ⟨h1, h2⟩
+      refine Or.inr ⟨ps, rfl, ?_, fun x hx => (nfLeafB_iff x).mp (h2 x hx)⟩
+      intro hnil; subst hnil; simp at h1
+    · rintro (h | ⟨qs, he, hne, hq⟩)
+      · exact absurd h nfLeaf_not_concat
+      · injection he with he; subst he
+        refine ⟨?_, fun x hx => (nfLeafB_iff x).mpr (hq x hx)⟩
+        cases ps with
+        | nil => exact absurd rfl hne
+        | cons _ _ => rfl
+
 end Hdl21
